@@ -21,6 +21,8 @@ CHECKS = {
          "one torrent, one honest seed, one tracker; handlers atomic (C20); silent corruption while stopped is unknowable to the client until the next verification and is excluded from the truthfulness oracle", MC, "looplab", "3/C04"),
  "C05": ("fault_enumeration", "download histories with resume ticks / stop+start / verify at enumerated positions are recorded once (data writes, bbolt page writes, fdatasyncs, file growth); for every prefix of the merged log, every torn variant of the in-flight data write, every subset of unsynced db page writes and the deletion subsets of files at restart, both images are rebuilt and a fresh session is opened, started and drained on the real event loop; no claimed piece may lack its verified content",
          "data files durable at WriteAt return (O_SYNC asserted on the real storage); torn writes inside one db page and reordering across fdatasync not modelled; last 4 unsynced db writes permuted", "crash-point enumeration (exhaustive over the recorded write history) with recovery on the real implementation", "crashlab", "3/C05"),
+ "C06": ("exploration", "every byte string of length <= 5 (6) over {d,e,i,l,0,1,2,:,-,x} and a grammar lattice of info dictionaries (piece length, pieces string, single/multi-file lengths incl. negative and overflowing ones, padding, path shapes, wrong types, duplicate/unsorted keys, nesting to 10^4 (10^6), declared string lengths) through all 9 parsing entry points (.torrent, info with flag pairs, resume v1-v3, peer metadata) in RLIMIT_AS-confined subprocesses; well-formedness of accepted infos, allocation bound, termination of piece construction, session limits",
+         "work bound 256 x input + 1 MiB of heap (stack not counted, only process death); looplab Start of hostile torrents not run (effect inferred from piece construction)", ENUM, "enum", "3/C06"),
  "C07": ("exploration", "every name / path-component string up to the stated length over a hostile byte alphabet plus a tricky list, in single- and multi-file torrents, both data-dir modes and utf-8 overrides: pure confinement oracle on every accepted Info, real allocator over the real file storage with a sentinel tree diff, tar extraction of hostile archives, and RemoveTorrent",
          "Linux path semantics; strings longer than the bound only through the tricky list; pre-existing symlinks inside the data dir not modelled", ENUM, "enum", "3/C07"),
  "C11": ("exploration", "every message kind over a boundary lattice of field values, sequences of up to 3-4 messages, written by the real PeerWriter and compared byte for byte with an independent reference encoder, then read back by the real PeerReader under every 1-cut / 2-cut fragmentation of the cut lattice and byte-at-a-time; upload counter and handshake layout included",
